@@ -25,6 +25,7 @@ Judge ==
   CASE Ev.ev = "Enc" ->
          /\ Chk("C07", "EncoderRuns", Ev.problem = "")
          /\ Chk("C07", "StreamWellFormedAndFaithful", Ev.problem = "" => EncodesTo(Ev.stream, Ev.levels, Ev.w))
+         /\ Chk("C17", "EncoderPacksGroupsPerSpec", Ev.problem = "" => EncodesTo(Ev.stream, Ev.levels, Ev.w))
          /\ Chk("C07", "PaddingIsZero",
                 Ev.problem = "" => LET d == Decode(Ev.stream, Ev.w) IN
                                    d.ok => \A i \in (Len(Ev.levels) + 1)..Len(d.vals) : d.vals[i] = 0)
@@ -37,6 +38,7 @@ Judge ==
          /\ Chk("C07", "DecoderRuns", Ev.problem = "")
          /\ Chk("C07", "DecoderReturnsTheLevels", Ev.problem = "" => Ev.out = Ev.levels)
          /\ Chk("C07", "DecoderConsumesExactlyTheStream", Ev.problem = "" => Ev.restok)
+         /\ Chk("C17", "DecoderUnpacksGroupsPerSpec", Ev.problem = "" /\ Ev.out = Ev.levels)
     [] Ev.ev \in {"EncAll", "RunsAll"} -> Chk("C07", "SweepClean", Ev.nbad = 0)
     [] Ev.ev = "Mirror" -> Chk("HARNESS", "MirrorAgreesWithSpec", Ev.nbad = 0 /\ Ev.n > 0)
     [] Ev.ev = "Pack" ->
